@@ -241,7 +241,11 @@ def run_case(ctx, case, idx, proj, breaks=None, peel_budget=None):
             key = dg["key"]
             diverging += 1
             if dg["files_same"]:
-                ctx.anomaly(f"latent:{key}")
+                if key in PEEL or level > 0:
+                    ctx.anomaly(f"latent:{key}")
+                elif key not in [p[0] for p in pending]:
+                    # unrecognised mechanism without visible effect on the files: attributed like a visible one, reported as anomaly
+                    pending.append((key, None, None))
             else:
                 fo = rngtap.first_output_difference(rngtap.test_files(runs[0]), rngtap.test_files(runs[j]))
                 detail = {k: v for k, v in dg.items() if k not in ("exec_detail",)}
@@ -260,6 +264,10 @@ def run_case(ctx, case, idx, proj, breaks=None, peel_budget=None):
                 # the held-back divergence is gone now that fixes[-1] is applied
                 attributed = KEY_OF_FIX[fixes[-1]]
                 for key, desc, wcase in pending:
+                    if desc is None:
+                        ctx.anomaly(f"latent:{attributed}")
+                        ctx.count("latent_divergences_attributed_by_intervention")
+                        continue
                     wcase = dict(wcase, observed_as=key, disappears_with=fixes[-1])
                     emit(attributed, desc + f"; observed as {key}, gone when candidate repair {fixes[-1]} is applied", wcase)
                 pending = []
@@ -276,7 +284,10 @@ def run_case(ctx, case, idx, proj, breaks=None, peel_budget=None):
         fixes.append(next_fix)
     # whatever is still pending survived every candidate repair (or could not be re-examined): its own mechanism
     for key, desc, wcase in pending:
-        emit(key, desc, wcase)
+        if desc is None:
+            ctx.anomaly(f"latent-unattributed:{key}")
+        else:
+            emit(key, desc, wcase)
 
 
 def run_chunk(spec, ctx):
